@@ -178,6 +178,27 @@ def align_named(names, seqs, cfg, variant="asan", env=None, hook=None, delays=No
             "msa": r["msa"]}
 
 
+def split_points(n, parts, seed):
+    """parts-1 distinct cut positions in 1..n-1 (pure function)"""
+    import random
+    if parts <= 1 or n < 2:
+        return []
+    rnd = random.Random(seed)
+    return sorted(rnd.sample(range(1, n), min(parts - 1, n - 1)))
+
+
+def align_named_files(names, seqs, cfg, cuts, variant="asan", env=None):
+    """The records split over several FASTA files at `cuts` (record indices), read into one msa object in order."""
+    wd = runner.workdir()
+    bounds = [0] + list(cuts) + [len(seqs)]
+    files = [wd.write(fasta_bytes(names[a:b], seqs[a:b]), ".fa") for a, b in zip(bounds, bounds[1:]) if b > a]
+    r = run_files(files, cfg, variant=variant, env=env)
+    if any(x != 0 for x in r["read_rcs"]) or r["run_rc"] != 0 or r["msa"] is None:
+        raise Rejected("read/run failed", {"read": r["read_rcs"], "run": r["run_rc"]})
+    n, rows = msa_rows(r["msa"])
+    return {"names": n, "rows": rows, "biotype": r["msa"]["biotype"], "alnlen": r["msa"]["alnlen"], "run": r["run"], "msa": r["msa"]}
+
+
 def align_arr(seqs, cfg, variant="asan", env=None):
     r = run_arr(seqs, cfg, variant=variant, env=env)
     if r["rc"] != 0:
